@@ -35,6 +35,22 @@ CLAIMED = {
     text="Proof: the helper callback programs of publish.py/subscribe.py are modelled statement by statement over userdata; for message lists and inbound sequences of any length: under the client's interface guarantees (one on_publish per accepted publish - C01/C06; one on_message per delivery in order - C03/C15) multiple()/single() issue exactly the given publishes in list order then one disconnect; for ARBITRARY callback sequences the published messages are a prefix of the list, none twice, disconnect only after all; simple() returns firstn msg_count of the messages passing the retained filter (single object iff msg_count = 1), disconnects exactly at the msg_count-th, ignores the rest; callback() hands every message to the user callback once in order. The real helpers are run end to end (tcp and websockets, MQTT 3.1.1 and 5) against an in-memory conforming broker and compared with the extracted model.",
     ref="4.20", technique="Coq proof over a statement-level model of the helper callbacks (induction over lists); end-to-end differential execution of the real helpers",
     note="Trusted: Coq kernel, extraction+driver, harness incl. the in-memory broker. The theorems assume the client-level guarantees cited (C01, C03, C06, C09/C10, C15), which are other properties of this set; TLS/proxy options are passed through only."),
+ "C04": dict(
+    text="Proof: executable encoders of every packet the client emits (CONNECT, PUBLISH, acks, PING, DISCONNECT, SUBSCRIBE, UNSUBSCRIBE; MQTT 3.1/3.1.1/5; bridge mode) and an independent strict decoder written from the OASIS texts: spec_decode v (wire v args ++ rest) = Some (packet_of v args, rest) for every representable argument record (all byte strings and list lengths), remaining length round trip/minimality for ALL n in 0..268435455 by arithmetic, unrepresentable inputs raise with nothing queued, clean-flag theorems over arbitrary connect/reconnect/CONNACK histories. _pack_remaining_length, the PUBLISH flag byte and the connect_flags statements are regenerated from the source on every run (bridge lemmas). Full statement holds except for the open finding F-C04b (U+0000 in strings), excluded explicitly.",
+    ref="4.4", technique="Coq proof: encode/spec-decode round trip for all inputs, arithmetic over all lengths; leaf functions translated from the source each run; byte-for-byte differential execution",
+    note="Trusted: Coq kernel, py2v translator, extraction+driver, harness; Python's str.encode('utf-8') and str(int/float); v5 property blocks are opaque here (C17). Known finding F-C04b excluded."),
+ "C05": dict(
+    text="Proof: the resumable reader (_packet_read/loop_read) refines a byte-at-a-time automaton for EVERY recv schedule (chunk sizes, would-block, EOF, error at any offset), hence the frame sequence, protocol error and residual state are independent of fragmentation; framing round trip for all bodies <= 268435455; the values handed to callbacks equal the encoded ones for every inbound packet type, MQTT 3.1/3.1.1/5, callback API 1 and 2 (v2 is the documented lift of v1); the WebSocket reader delivers exactly the concatenated data payloads for every frame sequence and socket schedule.",
+    ref="4.5", technique="Coq proof: refinement of the chunked reader to a byte automaton for all schedules; round trip against an independent encoder; differential execution incl. exhaustive recv schedules",
+    note="Trusted: Coq kernel, extraction+driver, harness. Property blocks opaque and reason codes as byte values (C17); session effects of handlers are C01-C03's model; recv(n) returns 1..min(n, available) bytes or raises."),
+ "C11": dict(
+    text="Proof: topic_matches_sub equals the MQTT 4.7 specification spec_match for all valid filters and topics (any depth, any bytes); the trie refines a key-unique finite map under any sequence of set/overwrite/delete/get (well-formedness preserved, get = lookup, delete of an unstored key leaves the structure identical), and iter_match yields exactly the values of the stored filters that spec-match, each once.",
+    ref="4.11", technique="Coq proof: equivalence with a specification matcher and refinement of the trie to a finite map (nested induction); exhaustive small-scope and random differential execution",
+    note="Trusted: Coq kernel, extraction+driver, harness; str.split('/') agrees with byte-level splitting at 0x2F. matcher.py is tied by correspondence only."),
+ "C15": dict(
+    text="Proof: for every history of message_callback_add/replace/remove (also from inside running callbacks, snapshot semantics) and every delivered message with a valid topic name, the callbacks run are exactly the registered ones whose filter spec-matches, each once; on_message runs iff none matches; an undecodable topic runs on_message only (checker c15_ok, extracted and applied to logs of the real client).",
+    ref="4.15", technique="Coq proof: corollary of the trie refinement plus a dispatch lemma over all histories; differential execution through the real loop_read at QoS 0/1/2",
+    note="Trusted as C11. Topic names containing wildcard levels (invalid per MQTT-3.3.2-2) are outside the statement; witnessed double dispatch recorded."),
 }
 PENDING = {}
 for i in range(1, 21):
